@@ -21,11 +21,15 @@ package c18
 import (
 	"context"
 	"crypto/sha256"
+	"encoding/pem"
 	"fmt"
 	"net/http"
+	"os"
+	"path/filepath"
 	"sort"
 	"strings"
 	"sync"
+	"sync/atomic"
 	"testing"
 	"time"
 
@@ -38,6 +42,7 @@ import (
 	"github.com/google/certificate-transparency-go/loglist3"
 	"github.com/google/certificate-transparency-go/trillian/ctfe"
 	ctfepb "github.com/google/certificate-transparency-go/trillian/ctfe/configpb"
+	"github.com/google/certificate-transparency-go/trillian/integration"
 	"github.com/google/certificate-transparency-go/x509"
 	"github.com/google/certificate-transparency-go/x509util"
 	"github.com/google/trillian/crypto/keyspb"
@@ -185,9 +190,12 @@ func descW(ws ...window) []string {
 }
 
 type checker struct {
-	r  *rep.R
-	fx *fixtures
-	hc *http.Client // never reached in the pure phases
+	r        *rep.R
+	fx       *fixtures
+	hc       *http.Client // never reached in the pure phases
+	rootsPEM string       // file holding the trusted root, for SetUpInstance
+	tmpDir   string
+	tmpSeq   atomic.Int64
 }
 
 type noNet struct{}
@@ -203,10 +211,28 @@ func (c *checker) nontrivial(sp space, w window, t inst, comp string) {
 	}
 }
 
-// serverConfig runs the window through the server's configuration path.
-func (c *checker) serverConfig(w window) (*ctfe.ValidatedLogConfig, error) {
+// serverConfig runs the window through the server's configuration path:
+// ValidateLogConfig on a LogConfig built in memory or, viaFile, on one loaded
+// with ctfe.LogConfigFromFile from a hand-written text-format file.
+func (c *checker) serverConfig(w window, viaFile bool) (*ctfe.ValidatedLogConfig, error) {
 	cfg := &ctfepb.LogConfig{LogId: 1, Prefix: "log", IsMirror: true, PublicKey: &keyspb.PublicKey{Der: c.fx.spki},
 		NotAfterStart: w.start.pb(), NotAfterLimit: w.limit.pb()}
+	if viaFile {
+		var b strings.Builder
+		b.WriteString("config {\n  log_id: 1\n  prefix: \"log\"\n  is_mirror: true\n  public_key { der: \"")
+		for _, x := range c.fx.spki {
+			fmt.Fprintf(&b, "\\x%02x", x)
+		}
+		b.WriteString("\" }\n")
+		b.WriteString(tsText("not_after_start", w.start) + tsText("not_after_limit", w.limit) + "}\n")
+		name := c.writeTemp(b.String())
+		cfgs, err := ctfe.LogConfigFromFile(name)
+		os.Remove(name)
+		if err != nil || len(cfgs) != 1 {
+			panic(fmt.Sprintf("harness: LogConfigFromFile: %v\n%s", err, b.String()))
+		}
+		cfg = cfgs[0]
+	}
 	var v *ctfe.ValidatedLogConfig
 	var err error
 	if pan, msg, stack := enum.Catch(func() { v, err = ctfe.ValidateLogConfig(cfg) }); pan {
@@ -214,6 +240,40 @@ func (c *checker) serverConfig(w window) (*ctfe.ValidatedLogConfig, error) {
 		return nil, fmt.Errorf("panic")
 	}
 	return v, err
+}
+
+// tsText writes one Timestamp field in protobuf text format.
+func tsText(field string, b bound) string {
+	if !b.present {
+		return ""
+	}
+	return fmt.Sprintf("  %s { seconds: %d nanos: %d }\n", field, b.sec, b.nanos)
+}
+
+// writeTemp writes a scratch file and returns its name; the directory is removed at the end.
+func (c *checker) writeTemp(content string) string {
+	n := c.tmpSeq.Add(1)
+	name := filepath.Join(c.tmpDir, fmt.Sprintf("cfg-%d.txt", n))
+	if err := os.WriteFile(name, []byte(content), 0o600); err != nil {
+		panic(err)
+	}
+	return name
+}
+
+// clientConfigFile is clientConfig through a hand-written text-format file and
+// client.TemporalLogConfigFromFile.
+func (c *checker) clientConfigFile(ws []window) *clientpb.TemporalLogConfig {
+	var b strings.Builder
+	for i, w := range ws {
+		fmt.Fprintf(&b, "shard {\n  uri: \"http://s%d.c18.example/log\"\n%s%s}\n", i, tsText("not_after_start", w.start), tsText("not_after_limit", w.limit))
+	}
+	name := c.writeTemp(b.String())
+	cfg, err := client.TemporalLogConfigFromFile(name)
+	os.Remove(name)
+	if err != nil {
+		panic(fmt.Sprintf("harness: TemporalLogConfigFromFile: %v\n%s", err, b.String()))
+	}
+	return cfg
 }
 
 func clientConfig(ws []window) *clientpb.TemporalLogConfig {
@@ -252,10 +312,14 @@ func showT(p *time.Time) string {
 var otherZone = time.FixedZone("c18+14", 14*3600)
 
 // checkWindow: one window through server, client and the cross comparison.
-func (c *checker) checkWindow(sp space, w window) {
+func (c *checker) checkWindow(sp space, w window, viaFile bool) {
 	r := c.r
+	how := ""
+	if viaFile {
+		how = " (config from a text-format file)"
+	}
 	cd := func(t *inst, via, lib, ref string) caseDesc {
-		d := caseDesc{Phase: "window", Space: sp.name, Shards: descW(w), Via: via, Library: lib, Ref: ref}
+		d := caseDesc{Phase: "window", Space: sp.name, Shards: descW(w), Via: via + how, Library: lib, Ref: ref}
 		if t != nil {
 			d.Instant = t.String()
 		}
@@ -267,7 +331,7 @@ func (c *checker) checkWindow(sp space, w window) {
 
 	// ---- server configuration
 	r.Eval(1)
-	vcfg, serr := c.serverConfig(w)
+	vcfg, serr := c.serverConfig(w, viaFile)
 	var sStart, sLimit *time.Time
 	serverUsable := false
 	switch {
@@ -275,9 +339,9 @@ func (c *checker) checkWindow(sp space, w window) {
 		if serr == nil {
 			r.Violation("server-config accepts an invalid timestamp", fmt.Sprintf("ValidateLogConfig accepts %s", w), cd(nil, "ValidateLogConfig", "accepted", "refuse"))
 		}
-	case w.inverted():
+	case w.inverted() || w.empty():
 		// the statement does not say whether a server may be configured with an
-		// inverted window; whatever is configured must admit nothing.
+		// inverted or empty window; whatever is configured must admit nothing.
 		if serr == nil {
 			sStart, sLimit, serverUsable = vcfg.NotAfterStart, vcfg.NotAfterLimit, true
 		} else {
@@ -332,7 +396,7 @@ func (c *checker) checkWindow(sp space, w window) {
 				got := err == nil
 				if vi == 0 {
 					admits[t] = got
-					c.nontrivial(sp, w, t, "server")
+					c.nontrivial(sp, w, t, "server"+how)
 				}
 				if got != want {
 					r.Violation(sig("server-admission", got, want, t), fmt.Sprintf("%s window %s NotAfter %s: err=%v, reference inside=%v", v.name, w, t, err, want),
@@ -346,11 +410,35 @@ func (c *checker) checkWindow(sp space, w window) {
 		}
 	}
 
+	// ---- the integration helper that picks a NotAfter for a configured log
+	if !viaFile && w.valid() && !w.inverted() && !w.empty() && (w.start.present || w.limit.present) {
+		r.Eval(1)
+		var na time.Time
+		var nerr error
+		if pan, msg, stack := enum.Catch(func() {
+			na, nerr = integration.NotAfterForLog(&ctfepb.LogConfig{NotAfterStart: w.start.pb(), NotAfterLimit: w.limit.pb()})
+		}); pan {
+			r.Violation("panic NotAfterForLog", msg+"\n"+stack, cd(nil, "NotAfterForLog", "panic", ""))
+		} else {
+			pick := inst{na.Unix(), int32(na.Nanosecond())}
+			if nerr != nil || !w.inside(pick) {
+				r.Violation("integration NotAfterForLog picks an instant outside the window", fmt.Sprintf("NotAfterForLog(%s) = %s, %v", w, pick, nerr), cd(&pick, "NotAfterForLog", fmt.Sprint(nerr), "inside"))
+			} else if !w.inside(inst{pick.sec, 0}) {
+				// informational: DER drops the fraction, the certificate would land outside
+				r.Add("notafterforlog_outside_once_truncated_to_der_seconds", 1)
+			}
+		}
+	}
+
 	// ---- client: a single-shard temporal client
 	r.Eval(1)
 	ws := []window{w}
 	want, why := judgeList(ws)
-	tlc, cerr := c.newClient(clientConfig(ws), c.hc, cd(nil, "NewTemporalLogClient", "", ""))
+	ccfg := clientConfig(ws)
+	if viaFile {
+		ccfg = c.clientConfigFile(ws)
+	}
+	tlc, cerr := c.newClient(ccfg, c.hc, cd(nil, "NewTemporalLogClient", "", ""))
 	routes := map[inst]bool{}
 	if (cerr == nil) != (want == accept) && want != dontcare {
 		if cerr == nil {
@@ -379,7 +467,7 @@ func (c *checker) checkWindow(sp space, w window) {
 				got, wantIn := err == nil, w.inside(t)
 				if zi == 0 {
 					routes[t] = got
-					c.nontrivial(sp, w, t, "client")
+					c.nontrivial(sp, w, t, "client"+how)
 				}
 				if got != wantIn || (got && idx != 0) {
 					r.Violation(sig("client-indexbydate", got, wantIn, t), fmt.Sprintf("IndexByDate(%s) on the single shard %s = (%d, %v), reference inside=%v", t, w, idx, err, wantIn),
@@ -403,11 +491,6 @@ func (c *checker) checkWindow(sp space, w window) {
 					fmt.Sprintf("window %s NotAfter %s: the client routes=%v, the server admits=%v", w, t, ro, a), cd(&t, "IndexByDate vs ValidateChain", fmt.Sprintf("routes=%v admits=%v", ro, a), fmt.Sprint(w.inside(t))))
 			}
 		}
-	}
-	if r.WantSample() && w.both() && !w.inverted() && !w.empty() && w.valid() && w.start.nanos != 0 {
-		t := w.start.at().plus(0, -1)
-		r.Sample(map[string]any{"space": sp.name, "window": w.String(), "instant": t.String(), "reference_inside": w.inside(t),
-			"client_routes": routes[t], "compared": "ValidateLogConfig bounds, ValidateChain on every whole-second certificate, IndexByDate on every instant"})
 	}
 }
 
@@ -728,15 +811,62 @@ func (c *checker) runLists(ls listSpace) {
 
 // acceptableLists enumerates the reference-acceptable lists of exactly k shards.
 func acceptableLists(ls listSpace) [][]window {
-	var out [][]window
-	n := ls.size()
-	for i := 0; i < n; i++ {
-		ws := ls.decode(i)
-		if v, _ := judgeList(ws); v == accept {
-			out = append(out, ws)
+	var mu sync.Mutex
+	var idx []int
+	enum.ParFor(ls.size(), nil, func(i int) {
+		if v, _ := judgeList(ls.decode(i)); v == accept {
+			mu.Lock()
+			idx = append(idx, i)
+			mu.Unlock()
 		}
+	})
+	sort.Ints(idx)
+	out := make([][]window, len(idx))
+	for j, i := range idx {
+		out[j] = ls.decode(i)
 	}
 	return out
+}
+
+// samples re-runs a few fixed cases sequentially and writes them out.
+func (c *checker) samples() {
+	T := anchorA
+	b := func(i inst, n string) bound { return at(i, n) }
+	half := T.plus(0, nsPerSec/2)
+	show := func(w window, t inst) map[string]any {
+		m := map[string]any{"window": w.String(), "instant": t.String(), "reference_inside": w.inside(t)}
+		if vcfg, err := c.serverConfig(w, false); err == nil {
+			if ls := c.fx.leaves[t]; ls != nil {
+				_, verr := ctfe.ValidateChain(ls.chain, ctfe.NewCertValidationOpts(c.fx.pool, fixedNow, false, false, vcfg.NotAfterStart, vcfg.NotAfterLimit, false, nil))
+				m["server_ValidateChain"] = fmt.Sprint(verr)
+			}
+		}
+		if tlc, err := client.NewTemporalLogClient(clientConfig([]window{w}), c.hc); err == nil {
+			i, ierr := tlc.IndexByDate(t.t())
+			m["client_IndexByDate"] = fmt.Sprintf("(%d, %v)", i, ierr)
+		}
+		if w.both() {
+			ll := &loglist3.LogList{Operators: []*loglist3.Operator{{Name: "op", Logs: []*loglist3.Log{{URL: "u", TemporalInterval: &loglist3.TemporalInterval{StartInclusive: w.start.at().t(), EndExclusive: w.limit.at().t()}}}}}}
+			m["loglist_kept"] = len(ll.TemporallyCompatible(&x509.Certificate{NotAfter: t.t()}).Operators) == 1
+		}
+		return m
+	}
+	c.r.Sample(show(window{b(T, "T"), b(T.plus(1, 0), "T+1s")}, T.plus(1, 0)))
+	c.r.Sample(show(window{b(T, "T"), b(T.plus(1, 0), "T+1s")}, T))
+	c.r.Sample(show(window{b(T.plus(0, 1), "T+1ns"), b(T.plus(10, 0), "T+10s")}, T))
+	ws := []window{{absent(), b(T, "T")}, {b(T, "T"), b(half, "T+0.5s")}, {b(half, "T+0.5s"), absent()}}
+	if tlc, err := client.NewTemporalLogClient(clientConfig(ws), c.hc); err == nil {
+		m := map[string]any{"shards": descW(ws...)}
+		for _, t := range []inst{T.plus(0, -1), T, half.plus(0, -1), half} {
+			i, ierr := tlc.IndexByDate(t.t())
+			m["IndexByDate("+t.String()+")"] = fmt.Sprintf("(%d, %v) reference %v", i, ierr, route(ws, t))
+		}
+		c.r.Sample(m)
+	}
+	bad := []window{{absent(), b(T, "T")}, {b(T.plus(0, 1), "T+1ns"), absent()}}
+	_, err := client.NewTemporalLogClient(clientConfig(bad), c.hc)
+	v, why := judgeList(bad)
+	c.r.Sample(map[string]any{"shards": descW(bad...), "NewTemporalLogClient": fmt.Sprint(err), "reference": v.String() + ": " + why})
 }
 
 // ---------------------------------------------------------------------------
@@ -746,8 +876,8 @@ func TestCheck(t *testing.T) {
 	th := r.Thorough()
 	r.Rule("spaces: anchor T in {2025-06-01T12:00:00Z, 1969-12-31T23:59:59Z (negative proto seconds)" + map[bool]string{false: "", true: ", 2049-12-31T23:59:59Z (UTCTime/GeneralizedTime switch)"}[th] +
 		"} with bounds {absent, T, T+1ns, T+0.5s, T+1s, T+10s" + map[bool]string{false: "", true: ", T-1ns, T+1s+1ns"}[th] + "} and a space P of Timestamp corner cases (nanos 0/1/999999999, seconds -1/min/max, and the invalid nanos -1/1e9, seconds min-1/max+1); " +
-		"every window (start, limit) of each space x every instant {bound-1s, -1ns, 0, +1ns, +1s} through ValidateLogConfig+ValidateChain (whole-second instants as real certificate and precertificate), NewTemporalLogClient+IndexByDate, TemporallyCompatible/Compatible (struct and JSON, synthetic and parsed certificates); " +
-		"every list of 1..k shards over the alphabet through NewTemporalLogClient and, if constructed, IndexByDate at every instant; every reference-acceptable list end to end against one real front end per shard (add-chain and add-pre-chain, plus a direct submission to every shard). " +
+		"every window (start, limit) of each space, configured in memory and through hand-written text-format files (LogConfigFromFile / TemporalLogConfigFromFile), x every instant {bound-1s, -1ns, 0, +1ns, +1s} through ValidateLogConfig+ValidateChain (whole-second instants as real certificate and precertificate), NewTemporalLogClient+IndexByDate, TemporallyCompatible/Compatible (struct and JSON, synthetic and parsed certificates); " +
+		"every list of 1..k shards over the alphabet through NewTemporalLogClient and, if constructed, IndexByDate at every instant; every reference-acceptable list end to end: TemporalLogClient.AddChain/AddPreChain over an http.RoundTripper into one real front end per shard, each built by ValidateLogConfig + ctfe.SetUpInstance from a LogConfig carrying that shard's not_after_start/not_after_limit (backend ref/reflog), plus a direct submission of every certificate to every shard. " +
 		"distinct_nontrivial = distinct (component, window, instant) with the instant within 1 ns of a present bound + distinct shard lists that are acceptable or are refused although all their shards are well-formed and non-inverted + distinct end-to-end (list, instant, entry type) deliveries")
 	r.Assume("the statement does not decide whether an empty window (start == limit) may be constructed: either outcome is accepted for shard lists containing one (counted in empty_shard_lists_*), but if constructed it must never be chosen; the server may refuse or accept an inverted window but must then admit nothing",
 		"loglist3.TemporalInterval holds two plain time.Time values: 'both absent' is the nil interval, 'absent start' is the zero time.Time (what an omitted start_inclusive decodes to; it precedes every enumerated instant), 'absent limit with a present start' cannot be expressed and is not enumerated (loglist_windows_not_representable)",
@@ -763,6 +893,15 @@ func TestCheck(t *testing.T) {
 	narrowA := anchorSpace("A6", anchorA, false) // thorough: the 6-bound alphabet for 4-shard lists (its instants are a subset of A's)
 	fx := buildFixtures(r, spaces)
 	c := &checker{r: r, fx: fx, hc: &http.Client{Transport: noNet{}}}
+	tmp, err := os.MkdirTemp("", "c18-")
+	if err != nil {
+		t.Fatal(err)
+	}
+	c.tmpDir = tmp
+	c.rootsPEM = filepath.Join(tmp, "root.pem")
+	if err := os.WriteFile(c.rootsPEM, pem.EncodeToMemory(&pem.Block{Type: "CERTIFICATE", Bytes: fx.root.DER}), 0o600); err != nil {
+		t.Fatal(err)
+	}
 
 	// phase 1: single windows
 	for _, sp := range spaces {
@@ -771,8 +910,10 @@ func TestCheck(t *testing.T) {
 		r.Add("windows", int64(nb*nb))
 		enum.Product([]int{nb, nb}, nil, func(idx []int) {
 			w := window{sp.bounds[idx[0]], sp.bounds[idx[1]]}
-			if pan, msg, stack := enum.Catch(func() { c.checkWindow(sp, w) }); pan {
-				r.Violation("harness-panic", msg+"\n"+stack, caseDesc{Phase: "window", Space: sp.name, Shards: descW(w)})
+			for _, viaFile := range []bool{false, true} {
+				if pan, msg, stack := enum.Catch(func() { c.checkWindow(sp, w, viaFile) }); pan {
+					r.Violation("harness-panic", msg+"\n"+stack, caseDesc{Phase: "window", Space: sp.name, Shards: descW(w)})
+				}
 			}
 		})
 		if pan, msg, stack := enum.Catch(func() { c.checkLogList(sp) }); pan {
@@ -791,9 +932,6 @@ func TestCheck(t *testing.T) {
 	var e2e []listSpace
 	for _, sp := range spaces {
 		if sp.name == "P" {
-			continue
-		}
-		if !th && sp.name != "A" {
 			continue
 		}
 		maxK := 3
@@ -820,27 +958,23 @@ func TestCheck(t *testing.T) {
 
 	// phase 2: every shard list
 	var lss []listSpace
-	if !th {
-		for k := 1; k <= 3; k++ {
-			lss = append(lss, newListSpace(spaces[0], k))
+	for _, sp := range spaces {
+		maxK := 3
+		if sp.name == "P" && !th {
+			maxK = 2
 		}
-		for k := 1; k <= 2; k++ {
-			lss = append(lss, newListSpace(spaces[1], k), newListSpace(protoSpace(), k))
+		for k := 1; k <= maxK; k++ {
+			lss = append(lss, newListSpace(sp, k))
 		}
-	} else {
-		for _, sp := range spaces {
-			for k := 1; k <= 3; k++ {
-				if sp.name == "P" && k == 3 {
-					continue
-				}
-				lss = append(lss, newListSpace(sp, k))
-			}
-		}
+	}
+	if th {
 		lss = append(lss, newListSpace(narrowA, 4))
 	}
 	for _, ls := range lss {
 		c.runLists(ls)
 	}
+	c.samples()
+	os.RemoveAll(tmp)
 	r.Finish()
 }
 
